@@ -644,6 +644,11 @@ func runC02(c *vh.Case, spec c02Spec) ([]c02Resp, map[int]int) {
 		time.Sleep(ms(100))
 		send(finalPing)
 		time.Sleep(ms(50))
+		if c.Index%4 == 1 {
+			// a line that is JSON but no message at all: whatever the session makes of it, the process survives
+			send([]string{"[]", "[ ]", "null", "[null]", "{}", "[[]]"}[(c.Index/4)%6])
+			time.Sleep(ms(5))
+		}
 		cw.Close()
 		ss.Wait()
 		sw.Close()
